@@ -91,6 +91,7 @@ def templates():
     out.append(('shared-subtree', P(
         In=(raw,), A=([('a', ('in', 'In'))],), B=([('b', ('in', 'A'))],), C=([('c', ('in', 'A'))],),
         E=([('e1', ('in', 'B')), ('e2', ('in', 'C'))],), Out=([('o1', ('in', 'E')), ('o2', ('in', 'A'))],)), 'In', 'Out'))
+    out.append(('output-is-the-input (one class)', P(In=(raw,)), 'In', 'In'))
     return out
 
 
@@ -438,7 +439,7 @@ def main():
                                  expected=f'is_thread_pool_needed={mode == "thread"} is_process_pool_needed={mode == "process"}'))
     # the switch structure is also what C09 needs from the builder
     failures += [dict(f_, property='C09') for f_ in failures if f_['property'] == 'C15' and 'switch' in str(f_['observed']).lower()]
-    result = dict(harness='bounded/builder.py', bound='16 templates (<= 9 node classes, every mark kind, shared and nested '
+    result = dict(harness='bounded/builder.py', bound='17 templates (<= 9 node classes, every mark kind, shared and nested '
                   'constructs) x parameter orders (<= 24 each) x single-defect mutations (9 kinds, every applicable position); pool flags: every '
                   'template x every node as a sync / process-tagged node, and single-node builds',
                   cases=n_cases, failures=failures)
